@@ -294,6 +294,15 @@ func (s *session) takeImages(kind string, permille int, file string) {
 	}
 }
 
+// onWrite: a crash point in the middle of a save (see writeHook).
+func (s *session) onWrite(f *os.File) {
+	if !s.armed || s.r.failed() {
+		return
+	}
+	s.r.probe("write-notification", 1)
+	s.takeImages("write", s.r.b.Cfg.PTake/2+1, filepath.Base(f.Name()))
+}
+
 func b2i(b bool) int {
 	if b {
 		return 1
